@@ -108,7 +108,8 @@ func (a *ipG2) g8BufferWrites(fn *ssa.Function) []g8Chunk {
 		for _, ci := range allCalls(g) {
 			com := ci.Common()
 			_, plain := ci.(*ssa.Call)
-			if callName(com) == "bytes.Buffer.Write" && len(com.Args) == 2 {
+			// (a chunk of a string goes out through WriteString: the same write, ip_j4.go)
+			if n := callName(com); (n == "bytes.Buffer.Write" || n == "bytes.Buffer.WriteString") && len(com.Args) == 2 {
 				if fr != nil {
 					if _, up := ipResolve(com.Args[0], fr); up == fr || !plain {
 						continue // a buffer of the helper's own
@@ -163,7 +164,7 @@ func (a *ipG2) g8CRLFFollows(w ssa.CallInstruction) bool {
 			continue
 		}
 		if callName(&call.Call) == "bytes.Buffer.WriteString" {
-			if call.Call.Args[0] == buf && crlf(call, buf) {
+			if (call.Call.Args[0] == buf || j4SameLoad(buf, call.Call.Args[0], w, call)) && crlf(call, buf) {
 				return true
 			}
 			continue
@@ -228,6 +229,9 @@ func g8MidExcluded(c *Ctx, hw *ssa.Function, pkg string) bool {
 		}
 		lines++
 		key := unwrap(args[0])
+		if j4KeyNotMid(ip, ci, key) {
+			continue // the line itself is written on the unequal edge of the Mid test of its key (ip_j4.go)
+		}
 		feeding := 0
 		for _, ap := range appends {
 			ap := ap
